@@ -93,6 +93,8 @@ pub enum Tok {
     Raw(Vec<u8>),
     /// JUMPDEST defining label `id`.
     Label(u8),
+    /// Zero-length marker defining label `id` at the current offset.
+    Mark(u8),
     /// PUSH of the byte offset of label `id` (plus a 256-bit bias added to the pushed constant).
     PushLabel(u8, U),
     /// PUSH of (offset of label `id` + `delta`) for targets relative to a label (e.g. one past it).
@@ -126,6 +128,7 @@ fn tok_len(t: &Tok, wide_labels: bool) -> usize {
         Tok::PushN(n, _) => 1 + *n as usize,
         Tok::Raw(b) => b.len(),
         Tok::Label(_) => 1,
+        Tok::Mark(_) => 0,
         Tok::PushLabel(_, bias) => {
             if bias.is_zero() {
                 if wide_labels {
@@ -155,7 +158,7 @@ pub fn assemble(toks: &[Tok]) -> Vec<u8> {
         let mut offsets = std::collections::HashMap::new();
         let mut pos = 0usize;
         for t in toks {
-            if let Tok::Label(id) = t {
+            if let Tok::Label(id) | Tok::Mark(id) = t {
                 offsets.entry(*id).or_insert(pos);
             }
             pos += tok_len(t, wide);
@@ -180,6 +183,7 @@ pub fn assemble(toks: &[Tok]) -> Vec<u8> {
                 Tok::PushN(n, v) => out.extend(pushn_bytes(*n, *v)),
                 Tok::Raw(b) => out.extend(b),
                 Tok::Label(_) => out.push(op::JUMPDEST),
+                Tok::Mark(_) => {}
                 Tok::PushLabel(id, bias) => {
                     let off = offsets.get(id).copied().unwrap_or(if wide { 0xfffe } else { 0xfe }) as u64;
                     if bias.is_zero() {
